@@ -19,7 +19,7 @@ ADDED = {
     "C08-m1": "unit wbuf", "C08-m3": "TransactionalMemory::non_durable_commit in unit alloc", "C09-m1": "unit relocate", "C09-m2": "unit mmiter",
     "C09-m3": "unit tableverify", "C10-m1": "unit cow (grandchild merge fragment)", "C10-m3": "unit bigpair", "C11-m1": "Allocators::resize_to claimed by C11",
     "C11-m3": "native check X-pins (TransactionTracker)", "C12-m2": "unit tableverify", "C17-m2": "unit tablens", "C17-m3": "unit tabledel", "C20-m2": "unit roopen",
-    "C04-n1": "MutateHelper::pop_leaf_entry / delete_leaf_entries in unit rootupd", "C04-n2": "native check X-leafmut (LeafMutator)", "C06-n2": "unit mmremove", "C10-n1": "unit mmremove", "C10-n2": "unit splice", "C18-n2": "unit openrun", "C05-n1": "fragment invalidate_younger in unit restorequeue", "C05-n2": "unit extractif", "C13-n1": "unit mmrelocate", "C13-n2": "native check X-pins claimed by C13 (it existed for C06 / C07 / C11)", "C08-n2": "units merkle / repair claimed by C08 (they existed for C12)", "C01-n2": "units merkle / tableverify claimed by C01 (they existed for C12)",
+    "C04-n1": "MutateHelper::pop_leaf_entry / delete_leaf_entries in unit rootupd", "C04-n2": "native check X-leafmut (LeafMutator)", "C06-n2": "unit mmremove", "C10-n1": "unit mmremove", "C10-n2": "unit splice", "C02-n1": "fragment post_commit_horizon in unit freeuntil (the clamp had been left out when C02 was claimed)", "C18-n2": "unit openrun", "C05-n1": "fragment invalidate_younger in unit restorequeue", "C05-n2": "unit extractif", "C13-n1": "unit mmrelocate", "C13-n2": "native check X-pins claimed by C13 (it existed for C06 / C07 / C11)", "C08-n2": "units merkle / repair claimed by C08 (they existed for C12)", "C01-n2": "units merkle / tableverify claimed by C01 (they existed for C12)",
     "C14-n1": "a soundness fix in the extractor (tail bindings are re-anchored on the real tail expression): the unit had verified the UNCHANGED text",
 }
 
